@@ -2,4 +2,4 @@
 # Offline setup: build the mlw_codec extension from /repo's current sources into /verif/.build and the vendored decoder.
 set -e
 cd "$(dirname "$0")"
-/venv/bin/python -c "import sys; sys.path.insert(0,'.'); from verif import compile as C; print('codec:', C.ensure_codec())"
+/venv/bin/python -c "import sys; sys.path.insert(0,'.'); from verif import compile as C; print('codec:', C.ensure_codec()); from verif.npu import wdecode; wdecode.lib(); print('vendored decoder: ok')"
